@@ -177,16 +177,83 @@ class SocErrHarness(Harness):
         return None
 
 
+class CtrlCounterHarness(Harness):
+    """SoCController alone with a free `bus_error` input: the interconnects signal one error cycle per timed-out request (two
+    requests timing out in adjacent cycles give two adjacent error cycles), so the counter has to count error CYCLES, from 0
+    and from 2**32-3 (forced), saturating at 2**32-1.  env = None | (base, cycles with bus_error high so far, capped)"""
+    conf_first = 40
+    conf_every = 7
+    MAXN = 4
+
+    def __init__(self, name):
+        self.name = name
+        self.cov = dict(adjacent=0, saturated=0)
+
+    def build(self):
+        from litex.soc.integration.soc import SoCController
+        self.dut = SoCController()
+        return self.dut
+
+    def bind(self, D):
+        self.err = D.i(self.dut.bus_error)
+        self.status = D.i(self.dut._bus_errors.status)
+        regs = [s for s in D.state_sigs if len(s) == 32 and s.backtrace and s.backtrace[-1][0] == "bus_errors"]
+        if len(regs) != 1:
+            raise MachineryError(f"{self.name}: expected exactly one 32-bit bus_errors register, found {len(regs)}")
+        self.cnt = D.i(regs[0])
+
+    def env_init(self):
+        return None
+
+    def choices(self, env):
+        if env is None:
+            return [("init", 0), ("init", SAT - 2)]
+        base, n, prev = env
+        return [(0,), (1,)] if n < self.MAXN else [(0,)]
+
+    def drive(self, v, env, ch):
+        v[self.err] = 0 if env is None else ch[0]
+
+    def faults(self, vpre, v, env, ch, cds):
+        if env is None and ch[1]:
+            return [{self.cnt: ch[1]}]
+        return None
+
+    def observe(self, v, env, ch):
+        if env is None:
+            return (ch[1], 0, 0), None, 0
+        base, n, prev = env
+        exp = min(base + n, SAT)
+        if v[self.status] != exp:
+            return env, ("soc.bus_errors", f"bus_errors shows {v[self.status]:#x} after {n} cycle(s) with bus_error high starting from {base:#x} (expected {exp:#x})"), 0
+        if ch[0] and prev:
+            self.cov["adjacent"] += 1
+        if ch[0] and exp == SAT:
+            self.cov["saturated"] += 1
+        return (base, n + ch[0], ch[0]), None, 0
+
+    def cover_report(self):
+        return dict(self.cov)
+
+    def vacuity(self):
+        if not self.cov["adjacent"] or not self.cov["saturated"]:
+            return f"adjacent error cycles / saturation never exercised: {self.cov}"
+        return None
+
+
 V = {}
+CTRL = "soc.controller.bus_errors(free bus_error input)"
 for std, T, tier in (("wishbone", 8, "quick"), ("axi-lite", 12, "quick"), ("axi", 12, "quick"), ("wishbone", 5, "quick")):
     V[f"soc.bus_errors({std},shared,bus_timeout={T})"] = (tier, dict(std=std, T=T))
 
 
 def configs(tier):
-    return [(n,) for n, (t, kw) in V.items() if t == "quick" or tier == "thorough"]
+    return [(n,) for n, (t, kw) in V.items() if t == "quick" or tier == "thorough"] + [(CTRL,)]
 
 
 def mk(name):
+    if name == CTRL:
+        return lambda: CtrlCounterHarness(name)
     kw = V[name][1]
     return lambda: SocErrHarness(name, **kw)
 
